@@ -17,10 +17,10 @@ CHECKS = {
                 thorough=dict(runs=25000, hashseeds=[0, 1, 2, 3], wall=1500, verify=64)),
     "C14": dict(engine="calcsim",
                 quick=dict(runs=240, hashseeds=[0, 1], wall=170, verify=8),
-                thorough=dict(runs=5000, hashseeds=[0, 1, 2, 3], wall=1800, verify=32)),
+                thorough=dict(runs=3000, hashseeds=[0, 1, 2, 3], wall=2400, verify=32)),
     "C13": dict(engine="calcsim",
                 quick=dict(runs=200, hashseeds=[0, 1], wall=170, verify=8),
-                thorough=dict(runs=4000, hashseeds=[0, 1, 2, 3], wall=1800, verify=32)),
+                thorough=dict(runs=2500, hashseeds=[0, 1, 2, 3], wall=2400, verify=32)),
 }
 
 LEVEL = "exploration"
